@@ -73,7 +73,8 @@ CHECKS = {
     },
     "C04": {
         "quick": [
-            dict(harness="C04_T0", cover=["accepted"], bounds="43 concrete templates"),
+            dict(harness="C04_T0", cover=["accepted"], bounds="52 concrete templates"),
+            dict(harness="Conf_ParserCorpus", samples=300, bounds="translation validation: the 252 source literals of the repository's parser tests, concretely, engine vs native (error, skeleton, Pos/End of every node, comments, printed text must be identical)"),
             dict(harness="C04_F3", cover=["accepted", "rejected"], bounds="accepted inputs among all 3-rune strings over D: every position field spells its token, nesting and order"),
             dict(harness="C04_T1", cover=["accepted"], bounds="43 templates x one symbolic hole over D"),
         ],
@@ -185,6 +186,7 @@ CHECKS = {
             dict(harness="C11_D1", cover=["value", "fault", "lazy", "badlit-skipped"], bounds="every operator variant (4 unary, 16 binary, && || ?:, 11 assignments x 3 lvalue forms, ++/-- prefix/postfix) over operands {a b x symbolic int64; u unset; e empty; o=010; h=0x1F; g=1z; literals 0 1 7 010 0x1F MaxInt64 08 0x}"),
             dict(harness="C11_D2", cover=["value", "fault", "lazy"], bounds="all ordered pairs of the 38 operator variants x inner-operand position x redundant parentheses; inner operands a b (symbolic int64), outer operands 3 5"),
             dict(harness="C11_Expand", bounds="the 38 depth-1 shapes through ParseCommands + Expand($((...)))"),
+            dict(harness="Conf_ArithCorpus", samples=300, bounds="translation validation: the 255 expression literals of the repository's arithmetic tests, concretely, engine vs native (value, error, variables must be identical)"),
         ],
         "thorough": [
             dict(harness="C11_D1", cover=["value", "fault", "lazy", "badlit-skipped"]),
